@@ -3,6 +3,7 @@
 -/
 import ZvtVerif.Proofs.ClientLemmas
 import ZvtVerif.Proofs.ClientFrame
+import ZvtVerif.Proofs.ClientTraffic
 namespace Zvt.C09
 open Zvt
 
@@ -34,7 +35,7 @@ connection (kernel-evaluated run: the terminal answers the command with a NACK; 
 is still cached). -/
 example :
     let d : SeqDesc := seqDesc "sequences::Initialization" [0x06, 0x93, 0x03, 0x12, 0x34, 0x56]
-    let w : World := { faults := [((0, 0), .nack)], logs := [["open@0"]] }
+    let w : World := { faults := [((0, 0), .nack)], logs := [[.opened 0]] }
     let leave : Unit → Item → Step Unit Bool := fun _ it => match it with | .err => .ret false | .ok _ _ => .cont ()
     let r := runItems d 60 leave 8 w { id := 0 } .start ()
     r.2.2 = true ∧ r.2.1.conn.isSome = true := by
@@ -167,8 +168,37 @@ example :
     let s2 := runClientCalls cfg ({}, w) [.begin [97], .cancel [97]]
     s1.2.logs.map List.length = [7, 8] ∧ s1.2.conn.map (·.id) = some 1 ∧
     s2.2.logs.map List.length = [7, 14] ∧ s2.2.logs[0]? = s1.2.logs[0]? ∧
-    (s1.2.logs[1]?.map (·.take 4)) = some ["open@2", "rx:060006123456de0978", "rx:800000", "rx:0fa1020001"] := by
+    (s1.2.logs[1]?.map (·.take 4)) = some [.opened 2, .rx [0x06, 0x00, 0x06, 0x12, 0x34, 0x56, 0xde, 0x09, 0x78], .rx [0x80, 0, 0],
+      .rx [0x0f, 0xa1, 0x02, 0x00, 0x01]] := by
   decide +kernel
+
+/-- **Every new connection starts with registration and an identity check — and with nothing else.** What the client
+writes on the connection a handshake opens (`World.sentOn`: the `rx` entries of the terminal's log of that connection)
+is a prefix of
+
+    registration (configured password, config byte DE, configured currency) · acknowledgement · identity request ·
+    acknowledgement
+
+in this order; when the handshake succeeds it is exactly these four packets. For every terminal behaviour. -/
+theorem handshake_is_registration_then_identity (cfg : Cfg) (w : World) :
+    (connect cfg w).1.sentOn w.logs.length <+: handshakePackets cfg ∧
+    ((connect cfg w).2 = true → (connect cfg w).1.sentOn w.logs.length = handshakePackets cfg) :=
+  connect_traffic cfg w
+
+/-- … with the configured password and currency on the wire (kernel-evaluated). -/
+example :
+    handshakePackets { maxTx := 1, amount := 2500, currency := 978, password := 123456, readCardTimeout := 15,
+                       serial := [65, 66], terminalId := [49] }
+      = [[0x06, 0x00, 0x06, 0x12, 0x34, 0x56, 0xde, 0x09, 0x78], [0x80, 0x00, 0x00], [0x0f, 0xa1, 0x02, 0x00, 0x01],
+         [0x80, 0x00, 0x00]] := by decide +kernel
+
+/-- **A connection whose terminal failed the vetting never receives a command**: whatever the client is asked to
+do afterwards, all it ever wrote on that connection is (a prefix of) the handshake's own four packets. -/
+theorem rejected_connection_only_saw_the_handshake (cfg : Cfg) (w : World) (hnone : w.conn = none)
+    (hrej : (connect cfg w).2 = false) (cl : Client) (calls : List ClientCall) :
+    (runClientCalls cfg (cl, (connect cfg w).1) calls).2.sentOn w.logs.length <+: handshakePackets cfg := by
+  rw [sentOn_of_logs_eq _ _ _ (rejected_connection_never_used cfg w hnone hrej cl calls)]
+  exact (connect_traffic cfg w).1
 
 /-- the handshake itself touches no older connection. -/
 theorem handshake_touches_no_old_connection (cfg : Cfg) (w : World) (j : Nat) (hj : j < w.logs.length) :
